@@ -306,6 +306,7 @@ func genC08(t *testing.T) {
 		linearCase(i)
 	}
 	if common.Batch == 0 && raceMode {
+		nilElemsNew("C08")
 		soakNew(common.Pick(30000, 300000), 4, 2)
 		soakNew(common.Pick(30000, 300000), 1, 1)
 	}
